@@ -94,7 +94,7 @@ def cmd_confirm(sid):
                     "failed": sum(int(x[2]) for x in res), "ok": bool(suite_ok), "s": round(time.time() - t0)})
         ok &= bool(suite_ok)
         if run:
-            r = sh(["sh", run, d], env=env)
+            r = sh(["bash", run, d], env=env)
             ran.append({"cmd": "demo run.sh <tree with the change>", "exit": r.returncode, "tail": r.stdout[-600:]})
             ok &= r.returncode != 0
     finally:
@@ -103,7 +103,7 @@ def cmd_confirm(sid):
     if run:
         d = scratch(None)
         try:
-            r = sh(["sh", run, d], env=env)
+            r = sh(["bash", run, d], env=env)
             ran.append({"cmd": "demo run.sh <tree without the change>", "exit": r.returncode, "tail": r.stdout[-300:]})
             ok &= r.returncode == 0
         finally:
